@@ -9,7 +9,8 @@
 //!   * the `Shell` is serialised again, the process-wide state read again, and the two are diffed;
 //!   * the post script runs in the parent (it writes the parent's view of the state to `$PARF`).
 //! Response: `st=<$? or none> sub=<esc> par=<esc> diff=<paths|-> w0=<umask>/<nofile>/<cwd> w1=<…> cv=<esc>`
-//! where every occurrence of the root directory in texts is replaced by `R`.
+//! where every occurrence of the root directory in texts is replaced by `R`; `TIMEOUT` if the context
+//! script did not come back in time.
 use serde_json::Value;
 use vh::{esc, fields, new_shell, run};
 
@@ -119,7 +120,20 @@ async fn one_case(line: &str, n: usize, tmp: &std::path::Path) -> String {
         Err(e) => return format!("serde-error {}", esc(&e.to_string())),
     };
     let w0 = world();
-    let rr = run(&mut shell, ctx).await;
+    // A regression may leave the parent waiting for ever (e.g. a stage run in the parent keeps the pipe
+    // its successor reads from): give the context 8 s (2 s once three contexts have hung), then report it and go on with a new shell.
+    static TIMEOUTS: std::sync::atomic::AtomicUsize = std::sync::atomic::AtomicUsize::new(0);
+    let limit = if TIMEOUTS.load(std::sync::atomic::Ordering::Relaxed) >= 3 { 2 } else { 8 };
+    let rr = match tokio::time::timeout(std::time::Duration::from_secs(limit), run(&mut shell, ctx)).await {
+        Ok(r) => r,
+        Err(_) => {
+            TIMEOUTS.fetch_add(1, std::sync::atomic::Ordering::Relaxed);
+            for p in [&subf, &stf, &parf] {
+                let _ = std::fs::remove_file(p);
+            }
+            return "TIMEOUT".into();
+        }
+    };
     // the command substitution contexts hand their output back through the assignment `cv=$(…)`
     let cv = shell.env().get_str("cv", &shell).map(|c| c.to_string()).unwrap_or_default();
     let _ = run(&mut shell, "cv=").await;
